@@ -26,7 +26,7 @@ func runC15(c *Ctx) {
 	c.rule("U1", "loading succeeds only through Validate(): every possibly-nil return of LoadFromEnvironment follows configurationToSet.Validate() and returns its (wrapped) result; Load/LoadFromViper delegate to it", 3)
 	c.rule("U2", "source order in LoadFromEnvironment: MergeConfigMap(defaults) → configuration file → linkFlagKeysToStructureKeys → Unmarshal → Validate", 4)
 	c.rule("U3", "linkFlagKeysToStructureKeys: a set flag is written with Set(); the default of an unset flag is forced only where the structure key is empty", 2)
-	c.rule("U9", "the reporting side replaces the configuration key separator in the prefix too, like the session's key replacer", 1)
+	c.rule("U9", "the reporting side (the names listed, the name a validation error gives) replaces the configuration key separator in the prefix too, like the session's key replacer", 2)
 	c.rule("U10", "a validation error records the enclosing field in front of the path gathered so far, for the structure path and for the variable-name path alike (the error travels from the innermost structure outwards)", 2)
 	c.rule("U8", "ValidateEmbedded calls Validate() on every field of struct kind that implements Validator, whatever the field holds, and returns its error", 1)
 	c.rule("U6", "names with an empty prefix: prefix and separator are joined only where the prefix was found non-empty", 2)
@@ -310,33 +310,63 @@ func runC15(c *Ctx) {
 	// The session's key replacer (configuration key separator → EnvVarSeparator) is applied by viper to the whole name it
 	// looks up, prefix included. The reporting side applies the same replacement to the prefix it puts in front.
 	{
-		replaced := false
-		allInstrs(det, func(in ssa.Instruction) {
-			cl, ok := in.(*ssa.Call)
-			if !ok || calleeFull(&cl.Call) != "(*strings.Replacer).Replace" || len(cl.Call.Args) < 2 {
-				return
-			}
-			fromPrefix := false
-			for _, l := range sources(cl.Call.Args[1], deriveOpts{through: func(n string) bool { return strings.Contains(n, "strings.") }}) {
-				if p, isP := l.(*ssa.Parameter); isP && p.Parent() == det {
-					fromPrefix = true
+		prefixReplaced := func(fn *ssa.Function, isPrefix func(l ssa.Value) bool) bool {
+			replaced := false
+			allInstrs(fn, func(in ssa.Instruction) {
+				cl, ok := in.(*ssa.Call)
+				if !ok || calleeFull(&cl.Call) != "(*strings.Replacer).Replace" || len(cl.Call.Args) < 2 {
+					return
 				}
-			}
-			nr, isNR := cl.Call.Args[0].(*ssa.Call)
-			if !fromPrefix || !isNR || calleeFull(&nr.Call) != "strings.NewReplacer" {
-				return
-			}
-			els := variadicElems(nr.Call.Args[0])
-			if len(els) == 2 {
-				from, ok1 := constString(els[0])
-				to, ok2 := constString(els[1])
-				if ok1 && ok2 && to == envSep && from != "" && from != to {
-					replaced = true
+				fromPrefix := false
+				for _, l := range sources(cl.Call.Args[1], deriveOpts{through: func(n string) bool { return strings.Contains(n, "strings.") }}) {
+					if isPrefix(l) {
+						fromPrefix = true
+					}
 				}
-			}
+				nr, isNR := cl.Call.Args[0].(*ssa.Call)
+				if !fromPrefix || !isNR || calleeFull(&nr.Call) != "strings.NewReplacer" {
+					return
+				}
+				els := variadicElems(nr.Call.Args[0])
+				if len(els) == 2 {
+					from, ok1 := constString(els[0])
+					to, ok2 := constString(els[1])
+					if ok1 && ok2 && to == envSep && from != "" && from != to {
+						replaced = true
+					}
+				}
+			})
+			return replaced
+		}
+		replaced := prefixReplaced(det, func(l ssa.Value) bool {
+			p, isP := l.(*ssa.Parameter)
+			return isP && p.Parent() == det
 		})
 		c.check(replaced, "U9", "config/reported-prefix-replaced", c.pos(det.Pos()), "the key separator is replaced in the prefix of the reported names, as the session does when it looks a variable up",
 			"the prefix is put in front of the reported names as it is: with a prefix that contains the configuration key separator (\"my.app\") MY.APP_COUNT is reported whereas loading looks MY_APP_COUNT up")
+		// the name a validation error gives the offending variable is built the same way
+		if gp := c.fn(cfgPkg, "(*validationError).GetMapStructurePath"); gp != nil {
+			c.FuncsSeen[fname(gp)] = true
+			replaced := prefixReplaced(gp, func(l ssa.Value) bool {
+				// the prefix recorded in the error: a load through the field mapStructurePrefix
+				u, ok := l.(*ssa.UnOp)
+				if !ok || u.Op != token.MUL {
+					return false
+				}
+				inner, ok := u.X.(*ssa.UnOp)
+				if !ok || inner.Op != token.MUL {
+					return false
+				}
+				fa, ok := inner.X.(*ssa.FieldAddr)
+				if !ok {
+					return false
+				}
+				so := structOf(fa.X.Type())
+				return so != nil && so.Field(fa.Field).Name() == "mapStructurePrefix"
+			})
+			c.check(replaced, "U9", "config/error-prefix-replaced", c.pos(gp.Pos()), "the key separator is replaced in the prefix of the variable a validation error names",
+				"the validation error puts the prefix in front of the variable it names as it is: with the prefix \"my.app\" the error says [MY.APP_INNER] whereas loading honours MY_APP_INNER")
+		}
 	}
 
 	// ---- U10 ----------------------------------------------------------------
